@@ -119,7 +119,7 @@ fn overlaps(a: &[usize], b: &[usize]) -> bool {
 pub fn generate(rng: &Rng, world: &World) -> C10 {
     let mut r = rng.fork("c10.script");
     let mut cfg = crate::c04::gen_cfg(world, &mut r);
-    cfg.max_size = r.range(8, 24);
+    cfg.max_size = if crate::c04::big_model() { r.range(5, 10) } else { r.range(8, 24) };
     cfg.pattern_weight = 2;
     if r.chance(1, 3) {
         cfg.labels.clear();
